@@ -14,13 +14,16 @@ class _Untraced:
     sys.monitoring events for the duration: NoTracing alone still pays a callback per
     executed instruction (measured ~8x slower than native on the schema machinery)."""
 
+    def __init__(self, heavy):
+        self.heavy = heavy
+
     def __enter__(self):
         import sys
         from crosshair import tracers
         self._nt = tracers.NoTracing()
         self._nt.__enter__()
         self._mon = None
-        if sys.version_info >= (3, 12) and os.environ.get('VERIF_KEEP_MONITORING') != '1':
+        if self.heavy and sys.version_info >= (3, 12) and os.environ.get('VERIF_KEEP_MONITORING') != '1':
             tid = tracers.SYS_MONITORING_TOOL_ID
             try:
                 self._mon = (tid, sys.monitoring.get_events(tid))
@@ -38,9 +41,12 @@ class _Untraced:
         return self._nt.__exit__(*a)
 
 
-def untraced():
+def untraced(heavy: bool = False):
+    """heavy=True additionally switches the instruction events off (worth it for regions that run
+    tens of milliseconds of real code; for many short regions per path the switching costs more
+    than it saves - measured on the pool harnesses)."""
     if is_tracing():
-        return _Untraced()
+        return _Untraced(heavy)
     return contextlib.nullcontext()
 
 
